@@ -38,6 +38,26 @@ pub(crate) mod verif_message {
         0xff444150, // PAD\xff
     ];
 
+
+    pub const T_SIG: u32 = KNOWN[0];
+    pub const T_VER: u32 = KNOWN[1];
+    pub const T_SRV: u32 = KNOWN[2];
+    pub const T_NONC: u32 = KNOWN[3];
+    pub const T_DELE: u32 = KNOWN[4];
+    pub const T_PATH: u32 = KNOWN[5];
+    pub const T_RADI: u32 = KNOWN[6];
+    pub const T_PUBK: u32 = KNOWN[7];
+    pub const T_MIDP: u32 = KNOWN[8];
+    pub const T_SREP: u32 = KNOWN[9];
+    pub const T_VERS: u32 = KNOWN[10];
+    pub const T_MINT: u32 = KNOWN[11];
+    pub const T_ROOT: u32 = KNOWN[12];
+    pub const T_CERT: u32 = KNOWN[13];
+    pub const T_MAXT: u32 = KNOWN[14];
+    pub const T_INDX: u32 = KNOWN[15];
+    pub const T_ZZZZ: u32 = KNOWN[16];
+    pub const T_PAD: u32 = KNOWN[17];
+
     #[inline]
     pub fn known(w: u32) -> bool {
         w == KNOWN[0] || w == KNOWN[1] || w == KNOWN[2] || w == KNOWN[3] || w == KNOWN[4]
@@ -425,4 +445,66 @@ pub(crate) mod verif_message {
     c05_refself!(c05_refself_n4_l48, 4, 48, 4);
     //@ harness c05_refself_n6_l72 tier=quick shape="count=6 len=72"
     c05_refself!(c05_refself_n6_l72, 6, 72, 6);
+
+    // ---------------------------------------------------------------------
+    // C06: Display of a decoded message never panics, whatever its nested values contain
+    // ---------------------------------------------------------------------
+
+    /// One field with a (nested) tag whose value is VL bytes: the first PL words are concrete
+    /// (the nested header: count, offsets, tags), the remaining bytes are symbolic.  A message
+    /// with these tags/values is exactly what from_bytes yields for the corresponding wire
+    /// image (c05_diff), so building it through add_field avoids the cost of the decode merge.
+    /// A *symbolic* nested count is out of reach (from_bytes on a 4-byte symbolic buffer ran
+    /// out of 16 GB): the count classes 0, 1, 2.., >1024 are covered by representatives.
+    pub fn display_body<const VL: usize, const PL: usize>(outer: Tag, prefix: [u32; PL]) {
+        let mut v: [u8; VL] = vany_bytes::<VL>();
+        let mut i = 0;
+        while i < PL {
+            v[4 * i..4 * i + 4].copy_from_slice(&prefix[i].to_le_bytes());
+            i += 1;
+        }
+        let mut msg = RtMessage::with_capacity(1);
+        msg.add_field(outer, &v).unwrap();
+        let s = msg.to_string(1);
+        vcover!(true, "COVER:display-returned");
+        vassert!(s.len() > 0, "VERIF:C06:display-returns-text");
+        core::mem::forget(s);
+        core::mem::forget(msg);
+    }
+
+    macro_rules! c06_display {
+        ($name:ident, $vl:expr, $pl:expr, $tag:expr, $prefix:expr, $unwind:expr) => {
+            #[cfg_attr(kani, kani::proof)]
+            #[cfg_attr(kani, kani::unwind($unwind))]
+            #[cfg_attr(kani, kani::stub(<crate::error::Error as std::convert::From<std::io::Error>>::from, crate::verif_support::stub_error_from_io))]
+            #[cfg_attr(not(kani), test)]
+            fn $name() {
+                display_body::<$vl, $pl>($tag, $prefix);
+            }
+        };
+    }
+
+    //@ family c06_display props=C06,C08 mode=strict mod=message::verif_message must_cover=COVER:display-returned
+    //@ harness c06_display_srep_garbage4 tier=quick shape="[SREP] value = ff ff ff ff"
+    c06_display!(c06_display_srep_garbage4, 4, 1, Tag::SREP, [0xffff_ffff], 20);
+    //@ harness c06_display_cert_count0 tier=quick shape="[CERT] value = count 0 + 4 symbolic bytes"
+    c06_display!(c06_display_cert_count0, 8, 1, Tag::CERT, [0], 20);
+    //@ harness c06_display_cert_empty tier=quick shape="[CERT] value = 0 B"
+    c06_display!(c06_display_cert_empty, 0, 0, Tag::CERT, [], 20);
+    //@ harness c06_display_cert_unaligned tier=quick shape="[CERT] value = 6 B (count word 1, 2 symbolic bytes)"
+    c06_display!(c06_display_cert_unaligned, 6, 1, Tag::CERT, [1], 20);
+    //@ harness c06_display_nonc tier=quick shape="[NONC] value = 8 symbolic bytes (not nested)"
+    c06_display!(c06_display_nonc, 8, 0, Tag::NONC, [], 20);
+    //@ harness c06_display_dele_one_field tier=quick shape="[DELE] value = {count 1, PUBK, 4 symbolic bytes}"
+    c06_display!(c06_display_dele_one_field, 12, 2, Tag::DELE, [1, T_PUBK], 20);
+    //@ harness c06_display_srep_unknown_tag tier=thorough shape="[SREP] value = {count 1, unknown tag word} (8 B, concrete)" required=no
+    c06_display!(c06_display_srep_unknown_tag, 8, 2, Tag::SREP, [1, 0x1234_5678], 24);
+    //@ harness c06_display_cert_nested_garbage tier=quick shape="[CERT] value = {count 1, DELE, ff ff ff ff} (two levels)"
+    c06_display!(c06_display_cert_nested_garbage, 12, 3, Tag::CERT, [1, T_DELE, 0xffff_ffff], 20);
+    //@ harness c06_display_srep_two_fields tier=thorough shape="[SREP] value = {count 2, offset 4, RADI, MIDP, 4+4 symbolic bytes}" required=no
+    c06_display!(c06_display_srep_two_fields, 24, 4, Tag::SREP, [2, 4, T_RADI, T_MIDP], 30);
+    //@ harness c06_display_srep_bad_offset tier=thorough shape="[SREP] value = {count 2, offset 0x40, RADI, MIDP} (16 B, concrete)" required=no
+    c06_display!(c06_display_srep_bad_offset, 16, 4, Tag::SREP, [2, 0x40, T_RADI, T_MIDP], 30);
+    //@ harness c06_display_cert_sig_dele tier=thorough shape="[CERT] value = {count 2, offset 4, SIG, DELE, 4 symbolic, nested count 0}" required=no
+    c06_display!(c06_display_cert_sig_dele, 24, 4, Tag::CERT, [2, 4, T_SIG, T_DELE], 30);
 }
